@@ -1,33 +1,37 @@
 #!/bin/sh
 # usage: seed_eval.sh <seed-id> <property> [check-entry]
-# Evaluates a seeded breaking change stored under /verif/seeded/<seed-id>/ (patch.diff, demo_test.go, meta.json):
-#  1. the demo passes on the unmodified tree, 2. the patch applies, the repository's tests still pass,
-#  3. the demo fails with the patch, 4. the check for the property turns red. /repo is restored afterwards.
+# Evaluates a seeded breaking change stored under /verif/seeded/<seed-id>/ (patch.diff, demo_test.go, meta.json)
+# in a scratch worktree of /repo (so /repo itself, the registered checks and the committed evidence are untouched
+# and several seeds can be evaluated at once):
+#  1. the demo passes on the unmodified tree, 2. the patch applies and the repository's tests still pass,
+#  3. the demo fails with the patch, 4. the check for the property (engine pointed at the scratch tree through
+#  SYMGO_REPO, output redirected through SYMGO_OUT) turns red. The scratch tree is removed afterwards.
 set -u
-ID=$1; PROP=$2; ENTRY=${3:-}
+ID=$1; PROP=$2; ENTRY=${3:-}; TIER=${TIER:-quick}
 S=/verif/seeded/$ID
+W=/tmp/se_$ID; O=/tmp/se_${ID}_out
 export GOFLAGS=-mod=mod GOPROXY=off GOSUMDB=off GOTOOLCHAIN=local
-cd /repo || exit 2
-git diff --quiet || { echo "repo not clean"; exit 2; }
+rm -rf $W $O; git -C /repo worktree prune
+git -C /repo worktree add --detach $W HEAD >/dev/null 2>&1 || { echo "cannot create scratch worktree"; exit 2; }
+cd $W || exit 2
 DIR=$(head -1 $S/demo_test.go | sed -n 's,^// dir: *,,p')
 [ -n "$DIR" ] || { echo "demo_test.go lacks '// dir:' line"; exit 2; }
-cp $S/demo_test.go /repo/$DIR/zz_seed_demo_test.go
+cp $S/demo_test.go $W/$DIR/zz_seed_demo_test.go
 RACE=""; grep -q -- "-race" $S/meta.json && RACE="-race"
 echo "== demo on the unmodified tree"
 go test -vet=off -count=1 $RACE -run 'Seed|Demo' ./$DIR/ 2>&1 | tail -3
 echo "== apply patch"
-git apply $S/patch.diff || { rm -f /repo/$DIR/zz_seed_demo_test.go; echo "patch does not apply"; exit 2; }
-rm -f /repo/$DIR/zz_seed_demo_test.go
+rm -f $W/$DIR/zz_seed_demo_test.go
+git apply $S/patch.diff || { echo "patch does not apply"; cd /; git -C /repo worktree remove --force $W; exit 2; }
 echo "== repository test suite with the patch"
 go test -vet=off -count=1 ./... 2>&1 | grep -v "no test files" | tail -9
-cp $S/demo_test.go /repo/$DIR/zz_seed_demo_test.go
+cp $S/demo_test.go $W/$DIR/zz_seed_demo_test.go
 echo "== demo with the patch"
 go test -vet=off -count=1 $RACE -run 'Seed|Demo' ./$DIR/ 2>&1 | tail -4
-rm -f /repo/$DIR/zz_seed_demo_test.go
-echo "== check $PROP quick with the patch"
-cp /verif/evidence/$PROP.json /tmp/evidence_$PROP.json.keep 2>/dev/null
-cd /verif && ./check $PROP quick $ENTRY 2>&1 | grep -v "^\[" | cut -c1-300 | tail -8
-# evidence describes runs on the unchanged tree only
-[ -f /tmp/evidence_$PROP.json.keep ] && mv /tmp/evidence_$PROP.json.keep /verif/evidence/$PROP.json
+rm -f $W/$DIR/zz_seed_demo_test.go
+echo "== check $PROP $TIER with the patch"
+mkdir -p $O
+cd /verif && SYMGO_REPO=$W SYMGO_OUT=$O ./check $PROP $TIER $ENTRY 2>&1 | grep -v "^\[" | cut -c1-300 | tail -8
 echo "exit=$?"
-git -C /repo checkout -- . ; git -C /repo status --short
+cd /; git -C /repo worktree remove --force $W; git -C /repo worktree prune
+[ -n "${KEEP_OUT:-}" ] || rm -rf $O
